@@ -170,7 +170,9 @@ def explore(res, tier, seed, model_ok=True):
     rng = random.Random(seed)
     nbase = 6 if tier == 'quick' else 40
     res.rule = ('%d base scenarios x one fault injected at every individual socket operation: connect (2 kinds), each of the first 8 sendall calls, recv at every byte offset of the server stream (EOF / socket.error / other exception; streams over 2000 bytes: every offset of the first 600 and last 300 bytes plus 600 sampled), '
-                'selector.wait at every cycle; plus every outcome combination of up to 3 resolved addresses on the real _connect_sock; non-trivial = every faulted run; distinct by operation line') % nbase
+                'selector.wait at every cycle; plus every outcome combination of up to 3 resolved addresses on the real _connect_sock; plus composed connections (harness/linkworld.py): '
+                'getaddrinfo / per-address outcomes x a random core history run through the real _connect/_connect_sock and the whole session loop, compared with the composed model `link`; '
+                'non-trivial = every faulted run; distinct by operation line') % nbase
     first_pairs = None
     # one batch per base scenario, so that memory stays bounded in the thorough tier
     for b in base_scenarios(rng, nbase):
@@ -214,8 +216,18 @@ def explore(res, tier, seed, model_ok=True):
             if c == 'connect-fail' and 'close%d' % i not in log:
                 res.failures.append(dict(cls='connect-loop', what='socket of failed address %d not closed' % i, input=[n, list(combo)], observed=log))
     res.exhaustive['connect_outcome_combinations_le_3_addresses'] = len(cases)
+    # ---- the COMPOSED connection (Model/ConnectLink.lean, Properties/C09_Connect.lean): the real `run()` with the real `_connect` /
+    # `_connect_sock` (simulated socket module: getaddrinfo + one outcome per address) through a whole connection, against
+    # `ConnectLink.composed`; oracle: every address tried before ConnectFail, failed sockets closed, nothing escapes -----
+    import linkworld
+    linkworld.explore_stream(res, rng, 'direct', 5000 if tier == 'thorough' else 400, model_ok, 'C09')
     res.samples += [first_pairs[0][1][-200:], first_pairs[1][1][-200:], 'connect outcomes (ok, connect-fail, sockcreate-fail)^n, n<=3']
 
 
 def replay(rp):
+    if isinstance(rp.get('input'), dict) and rp['input'].get('kind') == 'link':
+        import linkworld
+        print('real: ' + linkworld.run_link_safe(rp['input']['case']))
+        print('model line: ' + linkworld.link_line(rp['input']['case']))
+        return 0
     return coreutil.replay_core(rp)
